@@ -59,8 +59,26 @@ func Cleanup() {
 	}
 }
 
-// Solve races the installed solvers on the script; the first sat/unsat answer wins.
+// Solve decides a script: first cvc5 alone with a short limit (it answers most VCs here in
+// tens of milliseconds), then all three solvers raced under the full limit.
 func Solve(sc *Script, timeout time.Duration, only ...string) *Result {
+	if len(only) == 0 {
+		first := 3 * time.Second
+		if timeout < first {
+			first = timeout
+		}
+		r := solveRace(sc, first, "cvc5")
+		if r.Status == "sat" || r.Status == "unsat" {
+			return r
+		}
+		r2 := solveRace(sc, timeout, "z3-new", "z3", "cvc5")
+		r2.Seconds += r.Seconds
+		return r2
+	}
+	return solveRace(sc, timeout, only...)
+}
+
+func solveRace(sc *Script, timeout time.Duration, only ...string) *Result {
 	fileMu.Lock()
 	fileSeq++
 	n := fileSeq
